@@ -215,7 +215,7 @@ def main():
     # the interpreter loop likewise: src/vm.rs `run` -> GeneratedVM.lean (Proofs/C05f.lean); a failure leaves a failing stub there
     print(subprocess.run([sys.executable, os.path.join(here, 'rs2lean_vm.py'), '--stub-on-failure', os.path.join(REPO, 'src', 'vm.rs')], stdout=subprocess.PIPE, stderr=subprocess.STDOUT, text=True).stdout.strip())
     print(subprocess.run([sys.executable, os.path.join(here, 'rs2lean_state.py'), '--stub-on-failure', os.path.join(REPO, 'src', 'vm.rs')], stdout=subprocess.PIPE, stderr=subprocess.STDOUT, text=True).stdout.strip())  # `impl State` -> GeneratedState.lean (Proofs/C20c.lean)
-
+    print(subprocess.run([sys.executable, os.path.join(here, 'rs2lean_api.py'), '--stub-on-failure', os.path.join(REPO, 'src', 'lib.rs')], stdout=subprocess.PIPE, stderr=subprocess.STDOUT, text=True).stdout.strip())  # the API layer of lib.rs -> GeneratedApi.lean (Proofs/C08d.lean)
 
 if __name__ == '__main__':
     main()
